@@ -1,4 +1,4 @@
-From V Require Import Common.Base C11.Str C11.EsbuildResolve C11.NodeSpec C11.SortLemmas C11.Scope C11.ResolveProofs.
+From V Require Import Common.Base C11.Str C11.EsbuildResolve C11.NodeSpec C11.SortLemmas C11.Scope C11.ResolveProofs C11.Walk C11.NodeWalkSpec C11.WalkProofs.
 Local Open Scope string_scope.
 (* non-vacuity: concrete non-trivial values meeting each theorem's hypotheses *)
 Example name_ex : parse_package_name (s_ "@scope/pkg/lib/a.js") = Some (s_ "@scope/pkg", s_ "./lib/a.js").
@@ -86,4 +86,32 @@ Example witness_shapes :
 Proof. vm_compute. reflexivity. Qed.
 
 Example ordinary_ex : ordinary_path (s_ "lib/a.b/c-d.js") = true /\ ordinary_path (s_ "lib//x.js") = false.
+Proof. split; vm_compute; reflexivity. Qed.
+
+(* second layer: a small tree meeting wf_fs / no_ts_rewrite, with main, index,
+   extension probing, a nested node_modules and an exports map *)
+Definition p_ (l : list String.string) : path := map s_ l.
+Definition ex_fs : fsmap :=
+  [ (p_ [], EDir (Some (mkPkg (Some (s_ "app")) None None None)));
+    (p_ ["src"], EDir None); (p_ ["src"; "main.js"], EFile); (p_ ["src"; "util.js"], EFile);
+    (p_ ["src"; "data.json"], EFile); (p_ ["src"; "dir"], EDir None); (p_ ["src"; "dir"; "index.js"], EFile);
+    (p_ ["src"; "lib"], EDir (Some (mkPkg None (Some (s_ "./entry")) None None))); (p_ ["src"; "lib"; "entry.js"], EFile);
+    (p_ ["node_modules"], EDir None);
+    (p_ ["node_modules"; "dep"], EDir (Some (mkPkg (Some (s_ "dep")) None (Some ex_exports) None)));
+    (p_ ["node_modules"; "dep"; "src"], EDir None); (p_ ["node_modules"; "dep"; "src"; "features"], EDir None);
+    (p_ ["node_modules"; "dep"; "src"; "features"; "a.js"], EFile) ].
+Example ex_fs_ok : wf_fsb ex_fs = true /\ no_tsb ex_fs = true.
+Proof. split; vm_compute; reflexivity. Qed.
+Example ex_fs_relative :
+  require_resolve (fun _ => false) ex_fs [] (p_ ["src"]) (s_ "./util") = NFile (p_ ["src"; "util.js"])
+  /\ require_resolve (fun _ => false) ex_fs [] (p_ ["src"]) (s_ "./dir") = NFile (p_ ["src"; "dir"; "index.js"])
+  /\ require_resolve (fun _ => false) ex_fs [] (p_ ["src"]) (s_ "./lib") = NFile (p_ ["src"; "lib"; "entry.js"])
+  /\ require_resolve (fun _ => false) ex_fs [] (p_ ["src"; "dir"]) (s_ "../data") = NFile (p_ ["src"; "data.json"]).
+Proof. repeat split; vm_compute; reflexivity. Qed.
+(* the parts tied by correspondence only, on the same tree: bare specifier through exports *)
+Example ex_fs_bare :
+  resolve (fun _ => false) ex_fs KRequire [] (p_ ["src"]) (s_ "dep/features/a")
+  = RFile (p_ ["node_modules"; "dep"; "src"; "features"; "a.js"])
+  /\ require_resolve (fun _ => false) ex_fs [] (p_ ["src"]) (s_ "dep/features/a")
+  = NFile (p_ ["node_modules"; "dep"; "src"; "features"; "a.js"]).
 Proof. split; vm_compute; reflexivity. Qed.
